@@ -1485,8 +1485,8 @@ let rec find_first test l i =
     hist -> str -> nat -> sdir -> (str -> nat option) -> ((nat * nat) * str)
     option **)
 
-let h_search_match h term start dir test =
-  match term with
+let h_search_match h term0 start dir test =
+  match term0 with
   | [] -> None
   | _ :: _ ->
     if Nat.leb (hlen h) start
@@ -1510,15 +1510,15 @@ let h_search_match h term start dir test =
 (** val h_search :
     hist -> str -> nat -> sdir -> ((nat * nat) * str) option **)
 
-let h_search h term start dir =
-  h_search_match h term start dir (fun e0 -> find_sub term e0)
+let h_search h term0 start dir =
+  h_search_match h term0 start dir (fun e0 -> find_sub term0 e0)
 
 (** val h_starts_with :
     hist -> str -> nat -> sdir -> ((nat * nat) * str) option **)
 
-let h_starts_with h term start dir =
-  h_search_match h term start dir (fun e0 ->
-    if prefix_b term e0 then Some (blen term) else None)
+let h_starts_with h term0 start dir =
+  h_search_match h term0 start dir (fun e0 ->
+    if prefix_b term0 e0 then Some (blen term0) else None)
 
 type hop =
 | HAdd of str
@@ -1715,9 +1715,9 @@ let strip_cr l =
 (** val decode_line : (n list * bool) -> str option **)
 
 let decode_line = function
-| (l, term) ->
+| (l, term0) ->
   (match decode l with
-   | Some _ -> decode (if term then strip_cr l else l)
+   | Some _ -> decode (if term0 then strip_cr l else l)
    | None -> None)
 
 type fhist = { f_mem : hist; f_new : nat; f_pinfo : (nat * nat) option }
@@ -9045,7 +9045,7 @@ let complete_line u cfg fuel =
 
 (** val search_prompt : bool -> str -> str **)
 
-let search_prompt success term =
+let search_prompt success term0 =
   app
     (if success
      then (Npos (XO (XO (XO (XI (XO XH)))))) :: []
@@ -9068,14 +9068,14 @@ let search_prompt success term =
       (XO (XI (XO (XI XH))))))) :: ((Npos (XI (XO (XO (XI (XO
       XH)))))) :: ((Npos (XO (XO (XO (XO (XO (XI
       XH))))))) :: []))))))))))))))))))
-      (app term ((Npos (XI (XI (XI (XO (XO XH)))))) :: ((Npos (XO (XI (XO (XI
-        (XI XH)))))) :: ((Npos (XO (XO (XO (XO (XO XH)))))) :: [])))))
+      (app term0 ((Npos (XI (XI (XI (XO (XO XH)))))) :: ((Npos (XO (XI (XO
+        (XI (XI XH)))))) :: ((Npos (XO (XO (XO (XO (XO XH)))))) :: [])))))
 
 (** val isearch_branch :
     uData -> config -> (str -> nat -> sdir -> bool -> cmd option e) ->
     (str * nat) -> nat -> str -> nat -> sdir -> bool -> cmd -> cmd option e **)
 
-let isearch_branch u cfg rec0 backup0 mark term idx d success c =
+let isearch_branch u cfg rec0 backup0 mark term0 idx d success c =
   ebind eget (fun s ->
     let do_search = fun term' idx' d' ->
       match h_search (hist_of s) term' idx' d' with
@@ -9094,35 +9094,35 @@ let isearch_branch u cfg rec0 backup0 mark term idx d success c =
                eret None))))
      | CForwardSearchHistory ->
        if Nat.ltb idx (sub (hlen_e s) (S O))
-       then do_search term (S idx) Forward
-       else rec0 term idx Forward false
+       then do_search term0 (S idx) Forward
+       else rec0 term0 idx Forward false
      | CKill m0 ->
        (match m0 with
-        | MBackwardChar _ -> rec0 (removelast term) idx d success
+        | MBackwardChar _ -> rec0 (removelast term0) idx d success
         | _ -> ebind changes_end (fun _ -> eret (Some c)))
      | CMove _ ->
        ebind (refresh_line u cfg) (fun _ ->
          ebind changes_end (fun _ -> eret (Some c)))
      | CReverseSearchHistory ->
        if Nat.ltb O idx
-       then do_search term (sub idx (S O)) Reverse
-       else rec0 term idx Reverse false
-     | CSelfInsert (_, ch) -> do_search (app term (ch :: [])) idx d
+       then do_search term0 (sub idx (S O)) Reverse
+       else rec0 term0 idx Reverse false
+     | CSelfInsert (_, ch) -> do_search (app term0 (ch :: [])) idx d
      | _ -> ebind changes_end (fun _ -> eret (Some c))))
 
 (** val isearch_loop :
     uData -> config -> nat -> (str * nat) -> nat -> str -> nat -> sdir ->
     bool -> cmd option e **)
 
-let rec isearch_loop u cfg fuel backup0 mark term idx d success =
+let rec isearch_loop u cfg fuel backup0 mark term0 idx d success =
   match fuel with
   | O -> efuel
   | S f ->
-    ebind (refresh_prompt_and_line u cfg (search_prompt success term))
+    ebind (refresh_prompt_and_line u cfg (search_prompt success term0))
       (fun _ ->
       ebind (next_cmd u cfg f true) (fun c ->
         isearch_branch u cfg (fun t i d' su ->
-          isearch_loop u cfg f backup0 mark t i d' su) backup0 mark term idx
+          isearch_loop u cfg f backup0 mark t i d' su) backup0 mark term0 idx
           d success c))
 
 (** val incremental_search : uData -> config -> nat -> cmd option e **)
@@ -9712,3 +9712,111 @@ let rec sql_run u h = function
 | o :: rest ->
   let (h1, x) = sql_step u h o in
   let (h2, xs) = sql_run u h1 rest in (h2, (x :: xs))
+
+type wr =
+| PasteOn
+| PasteOff
+| Other
+
+type 'settings term = { t_tio : 'settings; t_out : wr list }
+
+type exit =
+| XLine
+| XEof
+| XInterrupted
+| XInvalidData
+| XHelperError
+| XHelperPanic
+
+(** val write0 : 'a1 term -> wr list -> 'a1 term **)
+
+let write0 t ws =
+  { t_tio = t.t_tio; t_out = (app t.t_out ws) }
+
+(** val try_write :
+    'a1 term -> wr -> bool list -> ('a1 term * bool) * bool list **)
+
+let try_write t w = function
+| [] -> (((write0 t (w :: [])), true), [])
+| b :: rest ->
+  if b then (((write0 t (w :: [])), true), rest) else ((t, false), rest)
+
+(** val enable_raw :
+    ('a1 -> 'a1) -> bool -> 'a1 term -> bool list -> (('a1
+    term * 'a1) * bool) * bool list **)
+
+let enable_raw raw_of paste t oracle =
+  let orig = t.t_tio in
+  let t1 = { t_tio = (raw_of orig); t_out = t.t_out } in
+  if paste
+  then let (p, o2) = try_write t1 PasteOn oracle in
+       let (t2, ok) = p in (((t2, orig), ok), o2)
+  else (((t1, orig), false), oracle)
+
+(** val disable_raw :
+    'a1 -> bool -> 'a1 term -> bool list -> ('a1 term * bool) * bool list **)
+
+let disable_raw orig paste_out t oracle =
+  let t1 = { t_tio = orig; t_out = t.t_out } in
+  if paste_out then try_write t1 PasteOff oracle else ((t1, true), oracle)
+
+type 'settings action =
+| AWrite
+| ASuspend of ('settings -> 'settings)
+
+type outcome0 =
+| OExit of exit
+| OIoError
+
+(** val run_actions :
+    ('a1 -> 'a1) -> bool -> 'a1 -> bool -> 'a1 action list -> exit -> 'a1
+    term -> bool list -> ('a1 term * outcome0) * bool list **)
+
+let rec run_actions raw_of paste orig paste_out acts x t oracle =
+  match acts with
+  | [] -> ((t, (OExit x)), oracle)
+  | a :: rest ->
+    (match a with
+     | AWrite ->
+       let (p, o1) = try_write t Other oracle in
+       let (t1, ok) = p in
+       if ok
+       then run_actions raw_of paste orig paste_out rest x t1 o1
+       else ((t1, OIoError), o1)
+     | ASuspend f ->
+       let (p, o1) = disable_raw orig paste_out t oracle in
+       let (t1, ok) = p in
+       if negb ok
+       then ((t1, OIoError), o1)
+       else let t2 = { t_tio = (f t1.t_tio); t_out = t1.t_out } in
+            let (p1, o3) = enable_raw raw_of paste t2 o1 in
+            let (p2, _) = p1 in
+            let (t3, _) = p2 in
+            let (p3, o4) = try_write t3 Other o3 in
+            let (t4, ok4) = p3 in
+            if ok4
+            then run_actions raw_of paste orig paste_out rest x t4 o4
+            else ((t4, OIoError), o4))
+
+(** val read_steps :
+    ('a1 -> 'a1) -> bool -> 'a1 action list -> exit -> 'a1 term -> bool list
+    -> ('a1 term * outcome0) * bool list **)
+
+let read_steps raw_of paste acts x t oracle =
+  let (p, o1) = enable_raw raw_of paste t oracle in
+  let (p1, paste_out) = p in
+  let (t1, orig) = p1 in
+  let (p2, o2) = run_actions raw_of paste orig paste_out acts x t1 o1 in
+  let (t2, res0) = p2 in
+  let (p3, o3) = disable_raw orig paste_out t2 o2 in
+  let (t3, _) = p3 in ((t3, res0), o3)
+
+(** val switches : wr list -> bool list **)
+
+let rec switches = function
+| [] -> []
+| w :: r ->
+  (match w with
+   | PasteOn -> true :: (switches r)
+   | PasteOff -> false :: (switches r)
+   | Other -> switches r)
